@@ -19,7 +19,7 @@
    changes, all other elements and their order stay"). *)
 From Coq Require Import List ZArith Bool Arith Lia.
 From SC Require Import Base.Res Base.PyList Inst.Heap Inst.ClassTable Inst.Model Inst.Canon Inst.Abs
-  Inst.SpecHelpers Inst.ElemProofs Inst.RefineProofs Inst.CopyProofs Inst.ElemRefine Inst.ElemRefine2 Inst.ElemRefine3 Inst.ElemRefine4 Inst.ElemRefine5 Inst.ElemRefine6 Inst.ElemRefine7 Inst.ElemRefine8 Inst.ElemRefineGuard.
+  Inst.SpecHelpers Inst.ElemProofs Inst.RefineProofs Inst.CopyProofs Inst.ElemRefine Inst.ElemRefine2 Inst.ElemRefine3 Inst.ElemRefine4 Inst.ElemRefine5 Inst.ElemRefine6 Inst.ElemRefine7 Inst.ElemRefine8 Inst.ElemRefine9 Inst.ElemRefineGuard.
 Import ListNotations.
 Open Scope nat_scope.
 
@@ -419,8 +419,7 @@ Qed.
    see above.  refines_spec: the model run and spec_helper agree on the result state (the
    receiver itself is returned) and on the error class, and an error leaves the heap alone.
    STILL MISSING for the full statement: item preparers, keywords / spec elements, nested
-   receivers, in-place calls on a shared container, update_/transform_<item> on dicts and sets
-   and without _inplace, classes with invalidated_by.
+   receivers, in-place calls on a shared container, classes with invalidated_by.
    (The copy-on-write flag of with_/without_<item> is C06_elem_helpers_copy_refine_guarded_partial.) *)
 Theorem C06_elem_helpers_refine_guarded_partial : forall ct h0 s l a,
   (* lists *)
@@ -682,6 +681,87 @@ Example C06_missing_guard_examples :
     = Err KeyErr.
 Proof. vm_compute. repeat split. Qed.
 
+(* update_<item> / transform_<item> ON DICTS AND SETS of proper scalars (Inst/ElemRefine9.v), in
+   place (elem_guard, refines_spec) and copy-on-write (copy_guard, copy_refines_spec):
+     dict   the value under the key is replaced by the new value / by f(old value); the key
+            keeps its position and spelling; an absent key is a KeyError, a transformed value of
+            the wrong type a ValueError, the function's own TypeError / user error goes through;
+            dict_vals_proper: no sentinel object among the values
+     set    the element is replaced: removed, and the new / transformed element added unless an
+            equal one is already there (so {2,0}.update(0, 2) is {2}); an absent element is a
+            ValueError; set_change_ok: the element equal to the target is the very same scalar
+            (the by-value finding below applies to sets as well) and the resulting element has an
+            unambiguous place in the canonical order of the abstraction
+   update_: new proper scalar (plain_items) or none (the element stays and is re-validated);
+   transform_: none, or a pool function mapping scalars to scalars, or raising (fo_ok). *)
+Theorem C06_dict_set_change_item_refine_guarded_partial : forall ct h0 s l a,
+  (elem_guard ct s l a KDict = true -> dict_vals_proper s l a = true ->
+     (forall key fo bi, fail_at s = None -> nonref key = true -> is_missing key = false -> fo_ok fo ->
+        refines_spec ct h0 s l (HTransformItem a) (mkh [key] true true VMissing false bi None [] fo)
+                     (STransformItem a) (mkah [abs0 key] true true AMissing false bi None [] fo)) /\
+     (forall key v, plain_items ct s l a = true -> nonref key = true -> is_missing key = false -> nonref v = true ->
+        refines_spec ct h0 s l (HUpdateItem a) (mkh [key; v] true true VMissing false None None [] None)
+                     (SUpdateItem a) (mkah [abs0 key; abs0 v] true true AMissing false None None [] None))) /\
+  (copy_guard ct s l a KDict = true -> dict_vals_proper s l a = true ->
+     (forall key fo bi, fail_at s = None -> nonref key = true -> is_missing key = false -> fo_ok fo ->
+        copy_refines_spec ct h0 s l (HTransformItem a) (mkh [key] false true VMissing false bi None [] fo)
+                          (STransformItem a) (mkah [abs0 key] false true AMissing false bi None [] fo)) /\
+     (forall key v, plain_items ct s l a = true -> nonref key = true -> is_missing key = false -> nonref v = true ->
+        copy_refines_spec ct h0 s l (HUpdateItem a) (mkh [key; v] false true VMissing false None None [] None)
+                          (SUpdateItem a) (mkah [abs0 key; abs0 v] false true AMissing false None None [] None))) /\
+  (elem_guard ct s l a KSet = true ->
+     (forall voi fo bi, fail_at s = None -> vscalar voi = true -> fo_ok fo ->
+        set_change_ok ct s l a voi (trp fo voi) = true ->
+        refines_spec ct h0 s l (HTransformItem a) (mkh [voi] true true VMissing false bi None [] fo)
+                     (STransformItem a) (mkah [abs0 voi] true true AMissing false bi None [] fo)) /\
+     (forall voi v, plain_items ct s l a = true -> vscalar voi = true -> nonref v = true ->
+        set_change_ok ct s l a voi (up_pr v voi) = true ->
+        refines_spec ct h0 s l (HUpdateItem a) (mkh [voi; v] true true VMissing false None None [] None)
+                     (SUpdateItem a) (mkah [abs0 voi; abs0 v] true true AMissing false None None [] None))) /\
+  (copy_guard ct s l a KSet = true ->
+     (forall voi fo bi, fail_at s = None -> vscalar voi = true -> fo_ok fo ->
+        set_change_ok ct s l a voi (trp fo voi) = true ->
+        copy_refines_spec ct h0 s l (HTransformItem a) (mkh [voi] false true VMissing false bi None [] fo)
+                          (STransformItem a) (mkah [abs0 voi] false true AMissing false bi None [] fo)) /\
+     (forall voi v, plain_items ct s l a = true -> vscalar voi = true -> nonref v = true ->
+        set_change_ok ct s l a voi (up_pr v voi) = true ->
+        copy_refines_spec ct h0 s l (HUpdateItem a) (mkh [voi; v] false true VMissing false None None [] None)
+                          (SUpdateItem a) (mkah [abs0 voi; abs0 v] false true AMissing false None None [] None))).
+Proof.
+  intros ct h0 s l a. split; [|split; [|split]].
+  - intros G Vp. split.
+    + intros key fo bi Hfa Hk Hm Hfo. now apply transform_item_dict_guarded.
+    + intros key v P Hk Hm Hnv. now apply update_item_dict_guarded.
+  - intros G Vp. split.
+    + intros key fo bi Hfa Hk Hm Hfo. now apply transform_item_dict_copy_guarded.
+    + intros key v P Hk Hm Hnv. now apply update_item_dict_copy_guarded.
+  - intros G. split.
+    + intros voi fo bi Hfa Hv Hfo Hok. now apply transform_item_set_guarded.
+    + intros voi v P Hv Hnv Hok. now apply update_item_set_guarded.
+  - intros G. split.
+    + intros voi fo bi Hfa Hv Hfo Hok. now apply transform_item_set_copy_guarded.
+    + intros voi v P Hv Hnv Hok. now apply update_item_set_copy_guarded.
+Qed.
+
+(* non-vacuity on the example receiver: m['a7'] += 5; update of an absent key; t: 2 -> 7; t: 0 -> 2 *)
+Example C06_dict_set_change_examples :
+  let run hp h := match run_helper ex_ct 0 hp h ex_state with
+                  | (Ok _, s') => SOk (nth 2 (heap s') (OList []), nth 3 (heap s') (OList []))
+                  | (Err e, _) => SErr e end in
+  dict_vals_proper ex_state 0 2 = true /\
+  set_change_ok ex_ct ex_state 0 3 (VInt 2) (trp (Some (FAddInt 5)) (VInt 2)) = true /\
+  set_change_ok ex_ct ex_state 0 3 (VInt 0) (up_pr (VInt 2) (VInt 0)) = true /\
+  run (HTransformItem 2) (mkh [VStr 7] true true VMissing false None None [] (Some (FAddInt 5)))
+    = SOk (ODict [(VStr 0, VInt 0); (VStr 7, VInt 6)], OSet [VInt 2; VInt 0]) /\
+  run (HUpdateItem 2) (mkh [VStr 9; VInt 1] true true VMissing false None None [] None) = SErr KeyErr /\
+  run (HUpdateItem 2) (mkh [VStr 0; VStr 1] true true VMissing false None None [] None) = SErr ValueErr /\
+  run (HTransformItem 3) (mkh [VInt 2] true true VMissing false None None [] (Some (FAddInt 5)))
+    = SOk (ODict [(VStr 0, VInt 0); (VStr 7, VInt 1)], OSet [VInt 0; VInt 7]) /\
+  run (HUpdateItem 3) (mkh [VInt 0; VInt 2] true true VMissing false None None [] None)
+    = SOk (ODict [(VStr 0, VInt 0); (VStr 7, VInt 1)], OSet [VInt 2]) /\
+  run (HTransformItem 3) (mkh [VInt 9] true true VMissing false None None [] (Some FId)) = SErr ValueErr.
+Proof. vm_compute. repeat split. Qed.
+
 (* WHY by_value_ok IS NEEDED — a finding.  xs : List[int] holding [1, 0, 1, 0];
    transform_<item>(True, lambda x: x): True has the element type, so the target is addressed
    BY VALUE; True == 1 finds position 0.  "Replace by transformed value" (spec_change_item)
@@ -741,5 +821,7 @@ Print Assumptions C06_list_change_item_copy_refine_guarded_partial.
 Print Assumptions C06_copy_guard_examples.
 Print Assumptions C06_elem_helpers_missing_container_refine_guarded_partial.
 Print Assumptions C06_missing_guard_examples.
+Print Assumptions C06_dict_set_change_item_refine_guarded_partial.
+Print Assumptions C06_dict_set_change_examples.
 Print Assumptions C06_by_value_transforms_argument_refuted.
 Print Assumptions C06_examples.
